@@ -74,6 +74,7 @@ class Contract:
         self.ghost_init = None
         self.captures = []    # (ghost name, local name, expr, ctype)
         self.assert_attrs = {}
+        self.uses = []        # other contract files whose ghost declarations this one refers to
         self.markers = []     # (line, id)
         if not os.path.exists(path):
             return
@@ -113,6 +114,9 @@ class Contract:
                     cur = ('harness-post', no + 1, [])
                     self.harness_post = cur
                     self.markers.append((no, 'harness-post'))
+                elif kind == 'uses':
+                    self.uses.extend(rest.split())
+                    cur = None
                 elif kind == 'capture':
                     # /*@ capture <local>:<ctype> [<ghost>=<expr>@<local>:<ctype>] ... */  (rule R21)
                     for item in re.findall(r'(?:(\w+)=([^@\s]+)@)?(\w+):([\w ]+?)(?=\s+\w+[:=]|\s*$)', rest):
@@ -302,6 +306,26 @@ def funcinfo(proj, qualname, cname=None, real='double', select=None, may_throw=N
                     is_method=not mi.is_static, is_const=mi.is_const, cls=cls)
     fi.qualname = qualname
     fi.inline_body = mi.inline_body
+    if mi.inline_body is None:
+        # contracts name parameters as the DEFINITION does (the header may differ, e.g. UTMUPS::CheckCoords)
+        try:
+            srcrel = source_of(cls)
+            if os.path.exists(os.path.join(proj.repo, srcrel)):
+                clean = proj.clean(srcrel)
+                fd = None
+                try:
+                    fd = X.find_function_def(clean, qualname, select)
+                except ExtractError:
+                    if select is None and arity is not None:
+                        # pick by arity
+                        pass
+                if fd is not None:
+                    dps = X.parse_params(fd.params_text, real)
+                    if len(dps) == len(fi.params):
+                        for hp, dp in zip(fi.params, dps):
+                            hp.name = dp.name
+        except Exception:
+            pass
     if may_throw is not None:
         fi.may_throw = may_throw
     return fi
